@@ -11,7 +11,7 @@ def P(binary, shards=(6, 16), watchdog=(1500, 14400), floor=(2, 2), **kw):
 
 PROPS = {
     "C12": P("pure", shards=(8, 16), floor=(40, 40)),
-    "C13": P("pure", shards=(8, 16), floor=(20, 20)),
+    "C13": P("pure", shards=(8, 16), floor=(20, 20), gomaxprocs=4),
     "C14": P("pure", shards=(8, 16), floor=(20, 20), exhaustive={"quick": False, "thorough": True}),
     "C15": P("pure", shards=(8, 16), floor=(10, 10)),
     "C16": P("pure", shards=(8, 16), floor=(10, 10)),
